@@ -17,6 +17,8 @@ TEXT = {
          "Trusted: Coq kernel, extraction, harness; pickle/Blosc round-tripping a chunk; cyvcf2 as the 'source read'. Phasing of calls with < 2 alleles is a don't-care (cyvcf2 reports an indeterminate bit, finding F8)."),
  "C12": ("Coq theorems region_index_spec (for all record lists with pos+len-1 inside int32 and every chunk size, the index built with the code's int32 arithmetic -- wrap written into the model -- equals the specification index computed in Z), rows_cover_once (the rows' runs concatenate to the record list: every record in exactly one row, in order), runs_are_maximal_uniform, row_fields (first/last position, count, max end attained and bounding), chunk_sizes, plus the pre-fix int8 wrap witness; tied by in-process differential of the real create_index on synthetic zarr stores in i1/i2/i4 and end to end on generated VCFs with END-style spans; the extracted check_C12 is evaluated on the real index.",
          "Trusted: Coq kernel, extraction, harness; numpy's integer promotion/wrap and zarr block access are modelled (wrap32), not verified."),
+ "C16": ("Coq theorems bed_decode_encode (an independent bit-level decoder inverts the independent writer for any sample count incl. those not divisible by four with ARBITRARY padding bits, any number of variants), plink_calls_spec (the documented 00/01/10/11 mapping), sample_bit_position (sample s is bits 2(s mod 4) of byte s/4), plink_rows_once (the TRANSLATED chunk_aligned_slices partition the variant rows exactly, chunk-aligned -- from C11); tied by converting generated filesets with plink.convert for chunk sizes x workers 0..8 and comparing all six arrays with the extracted decoder and the bim/fam text.",
+         "Trusted: Coq kernel, translator (chunk_aligned_slices), extraction, harness; bed_reader's decoding/text parsing and the BufferedArray flushes are exercised differentially (the latter is modelled under C01/C03)."),
 }
 
 def main():
